@@ -230,7 +230,7 @@ package db
 //@ // operations asks the transaction for the document, head or block stores, so document values,
 //@ // identifiers and commit history cannot be touched by a patch or a version switch
 //@ load-for C19: internal/db/description, internal/db/id
-//@ discipline no-reach from (*DB).patchSchema, (*DB).updateSchema, (*DB).setActiveSchemaVersion, (*DB).createCollections to (datastore.Txn).Datastore, (datastore.Txn).Headstore, (datastore.Txn).Blockstore, (datastore.Txn).Encstore tags C19
+//@ discipline no-reach from (*DB).patchSchema, (*DB).updateSchema, (*DB).setActiveSchemaVersion to (datastore.Txn).Datastore, (datastore.Txn).Headstore, (datastore.Txn).Blockstore, (datastore.Txn).Encstore tags C19
 //@ // switching the active version saves the target as active and at most one other version as inactive
 //@ ghost colSaves int
 //@ extern description.SaveCollection(ctx, col) -> (e)
